@@ -44,9 +44,11 @@ def inner_constant_key(value: ConstantValue) -> object:
     Similar to Python's `_PyCode_ConstantKey` except nan values area all replaced with
     a global
     """
-    if isinstance(value, (str, type(None), bytes, type(...))):
+    if isinstance(value, (str, type(None), type(...))):
         return value
-    if isinstance(value, (bool, int)):
+    # 'a' and b'a' have the same hash, so tag the bytes with their type to never
+    # compare them to a string, which is an error with `python -bb`
+    if isinstance(value, (bool, int, bytes)):
         return (type(value), value)
     if isinstance(value, float):
         return (type(value), replace_nan(value), is_neg_zero(value))
